@@ -103,6 +103,7 @@ def run(ctx):
         "production reloads reuse a controller only with an identical dns{} section (cmd.dnsConfigEqual, not executed: package cmd); "
         "the five assignments that record dns{} on the ControlPlane are replicated by the harness, the option builder and "
         "ReuseDNSControllerFrom/CloneDnsCache are the real ones",
+        "the latch hammer and the burst scenario are statistical (real scheduling); everything else is deterministic per seed",
         "wall clock and monotonic clock agree (deadline.After vs UnixNano comparisons); under synctest they do",
         "key_injective assumes question names without the '|' character",
     ]
